@@ -24,8 +24,8 @@ ASSUMPTIONS = [
     "a pass exception or verify() failure is a rejection (counted), not a violation",
 ]
 BOUNDS = {
-    "quick": dict(one_acc_nodes=4, two_acc_nodes=3, nesting=2, loop_triples=G.LOOP_TRIPLES, x=1000, y=2000),
-    "thorough": dict(one_acc_nodes=5, two_acc_nodes=4, nesting=3, loop_triples=G.LOOP_TRIPLES, x=1000, y=2000),
+    "quick": dict(one_acc_nodes=4, two_acc_nodes=3, nesting=2, loop_triples=G.LOOP_TRIPLES, cfor=[(0, 2, 1), (3, 3, 1)], x=1000, y=2000),
+    "thorough": dict(one_acc_nodes=5, two_acc_nodes=4, nesting=3, loop_triples=G.LOOP_TRIPLES, cfor=[(0, 2, 1), (3, 3, 1), (1, 7, 3)], x=1000, y=2000),
 }
 PIPELINES = ["accfg-dedup", "accfg-dedup{hoist=false}"]
 MAX_VECTORS = 400
@@ -33,7 +33,7 @@ MAX_VECTORS = 400
 
 def space(tier):
     b = BOUNDS[tier]
-    g1 = G.Grammar(accs=("acc1",), calls=("CALL",), ifp=True, max_depth=b["nesting"])
+    g1 = G.Grammar(accs=("acc1",), calls=("CALL",), ifp=True, max_depth=b["nesting"], cfor=b["cfor"])
     g2 = G.Grammar(accs=("acc1", "acc2"), calls=("CALL",), max_depth=b["nesting"])
     p1 = [p for p in g1.programs(b["one_acc_nodes"]) if G.has_launch(p)]
     seen = set(p1)
